@@ -1194,7 +1194,14 @@ func (c *Context) quantize(d, v *Decimal, exp int32) Condition {
 		p := int32(d.NumDigits()) - diff
 		if p < 0 {
 			if !d.IsZero() {
-				d.Coeff.SetInt64(0)
+				// Every digit is discarded and the value is less than a
+				// tenth of 10^exp: the result is 0 or 1 unit, depending on
+				// the rounding mode.
+				var unit BigInt
+				if c.Rounding.ShouldAddOne(&unit, d.Negative, -1) {
+					unit.SetInt64(1)
+				}
+				d.Coeff.Set(&unit)
 				res = Inexact | Rounded
 			}
 		} else {
